@@ -23,18 +23,31 @@ ASSUMPTIONS = [
     "dm_env adapters built for a re-seed reuse the first adapter's compiled jax.jit(env.reset/step) callables",
 ]
 MULTI_REWARD = ["Connector", "LevelBasedForaging"]
-QUICK_ENVS = ["Snake", "TSP", "Game2048", "BinPack", "Connector", "LevelBasedForaging", "Maze", "Cleaner", "Knapsack"]
-AGGS = ["sum", "max", "min", "mean", "prod"]
+QUICK_ENVS = ["Snake", "TSP", "Game2048", "BinPack", "Connector", "LevelBasedForaging", "Maze", "Cleaner", "Knapsack",
+              "RobotWarehouse"]
+AGGS = ["sum", "max", "min", "mean", "prod", "halfsum", "gmax"]
+TEAM_REWARD = ["Cleaner", "RobotWarehouse", "MMST", "MultiCVRP"]   # multi-agent envs with scalar (team) reward
 
 
+# custom aggregators include ones that are NOT the identity on a scalar (scaled sum, discounted max), so that an
+# adapter that bypasses the aggregator for already-scalar team rewards is visible
 def agg(name):
     import jax.numpy as jnp
 
+    if name == "halfsum":
+        return lambda x: 0.5 * jnp.sum(x)
+    if name == "gmax":
+        return lambda x: 0.9 * jnp.max(x)
     return getattr(jnp, name)
 
 
 def np_agg(name, x):
-    return getattr(np, name)(np.asarray(x, np.float64))
+    x = np.asarray(x, np.float64)
+    if name == "halfsum":
+        return 0.5 * np.sum(x)
+    if name == "gmax":
+        return 0.9 * np.max(x)
+    return getattr(np, name)(x)
 
 
 def to_dict(o):
@@ -330,7 +343,7 @@ def work_items(tier, flt):
         cost = {"BinPack": 8, "MMST": 8, "PacMan": 4, "Connector": 3}.get(env, 1)
         items.append({"env": env, "entry": entry, "adapter": "gym", "n": n, "cost": cost})
         items.append({"env": env, "entry": entry, "adapter": "dm", "n": n, "cost": cost})
-        if env in MULTI_REWARD:
+        if env in MULTI_REWARD or env in TEAM_REWARD:
             items.append({"env": env, "entry": entry, "adapter": "m2s", "n": n * 2, "cost": cost})
     return items
 
@@ -375,9 +388,9 @@ def run_item(item, seed, tier):
         b = envs.bundle(env, entry)
 
         def one(sd, ops, a1, a2):
-            aggs = (a1, AGGS[(AGGS.index(a1) + 1 + AGGS.index(a2) % 2) % 5]) if (adapter == "m2s" or env in MULTI_REWARD) else None
+            aggs = (a1, AGGS[(AGGS.index(a1) + 1 + AGGS.index(a2) % 2) % len(AGGS)]) if (adapter == "m2s" or env in MULTI_REWARD) else None
             if adapter == "gym" and env in MULTI_REWARD:
-                aggs = [("sum", "max"), ("mean", "min"), ("max", "prod")][AGGS.index(a1) % 3]
+                aggs = [("sum", "max"), ("mean", "min"), ("halfsum", "gmax")][AGGS.index(a1) % 3]
             case = {"env": env, "entry": entry, "adapter": adapter, "seed": sd, "aggs": list(aggs) if aggs else None, "ops": []}
 
             def fail(oracle, sig, msg):
